@@ -29,7 +29,8 @@ RULE = ('JSON: dictionaries with int (incl. negative, zero) and non-integer-like
         'quotes, a tab in .tsv files) with missing fields and fully empty rows, both delimiters, random integers, '
         'floats (float / float32 / float64; exact ties of %.4f included) and random string cells that int()/float() '
         'reject incl. tabs, commas, quotes; two-column cluster tables with negative and large ids and mixed value '
-        'kinds; the number grammar of _try_make_number on random strings incl. the Unicode decimal digits and white space '
+        'kinds (also read again after blank lines - LF / CRLF / CR; trailing, between rows, after the header - were inserted '
+        'into the written file: _read_tsv_simple skips empty rows); the number grammar of _try_make_number on random strings incl. the Unicode decimal digits and white space '
         'int() / float() convert first (the tables of the model compared with the real int() over ALL code points: op uniclass); '
         'look-alikes int() rejects (superscripts, circled digits, zero-width space) inside string cells; the csv module on random records; '
         'parameter files with scalars, lists and tuples, quotes and backslashes inside lists, upper-case names. '
@@ -474,7 +475,26 @@ def impl(case):
                 # the same file through the cluster-table reader (phylib.io.model.load_metadata)
                 from phylib.io.model import load_metadata
                 meta = [[fld, [[k, py_enc(v)] for k, v in dd.items()]] for fld, dd in load_metadata(p).items()]
-            return dict(text=text, field=f, back=[[k, py_enc(v)] for k, v in back.items()], meta=meta)
+            res = dict(text=text, field=f, back=[[k, py_enc(v)] for k, v in back.items()], meta=meta)
+            if case.get('blank'):
+                # the written file with blank lines inserted (an editor's trailing newline, a blank line between two rows;
+                # LF or CRLF), read again
+                b = case['blank']
+                lines = text.split('\r\n')[:-1]
+                out = []
+                for i, ln in enumerate(lines):
+                    out.append(ln + '\r\n')
+                    out.extend([b['eol']] * sum(1 for x in b['after'] if x % len(lines) == i))
+                out.extend([b['eol']] * b['trailing'])
+                res['edited'] = ''.join(out)
+                with p.open('w', newline='') as fh:
+                    fh.write(res['edited'])
+                try:
+                    f2, back2 = M._read_tsv_simple(p)
+                    res['blank_field'], res['blank_back'] = f2, [[k, py_enc(v)] for k, v in back2.items()]
+                except Exception as e:  # noqa  (judged against the model of the reader: CORR, the file is not a written one)
+                    res['blank_raised'] = '%s: %s' % (type(e).__name__, str(e)[:120])
+            return res
         if op == 'number':
             return [py_enc(M._try_make_number(x)) for x in case['strings']]
         if op == 'uniclass':
@@ -557,7 +577,8 @@ def model_query(case, impl_res):
     if case['op'] == 'simple':
         data = [[int(k), ({'int': v} if type(v) is int else ({'lit': repr(v)} if type(v) is float else {'text': v}))]
                 for k, v in case['data']]
-        return dict(p=PID, op='simple', field=case['field'], data=data, tsv=case['ext'] == 'tsv', impl_text=text)
+        edited = impl_res['ok'].get('edited') if isinstance(impl_res.get('ok'), dict) else None
+        return dict(p=PID, op='simple', field=case['field'], data=data, tsv=case['ext'] == 'tsv', impl_text=text, impl_edited=edited)
     if case['op'] == 'number':
         return dict(p=PID, op='number', strings=case['strings'])
     if case['op'] == 'uniclass':
@@ -685,6 +706,15 @@ def judge(case, impl_res, ans):
                 return '%s: metadata file loaded as %s, expected %s' % ('SPEC' if in_dom else 'CORR', got, want)
         if m['real_parsed'] != m['expected']:
             return 'CORR: the file written by the real code, read by the model reader, differs from the table'
+        if ok.get('edited') is not None:
+            # blank lines are not rows (_read_tsv_simple skips empty rows): the edited file reads as the written one.  Not a
+            # file "written as TSV" in the words of the property: real code against the model of the reader, CORR
+            if m['edited_parsed'] != m['expected']:
+                return 'MACHINERY: the model reader does not read the file with blank lines as the written one'
+            if 'blank_raised' in ok:
+                return 'CORR: _read_tsv_simple raised %s on the written file with blank lines inserted; the model reads the table' % ok['blank_raised']
+            if ok['blank_field'] != case['field'] or sorted(ok['blank_back']) != exp:
+                return 'CORR: the file with blank lines read back as %s %s, the model reads %s' % (ok['blank_field'], ok['blank_back'], exp)
         return None
     if op == 'number':
         exp = [num_py(v) for v in m['values']]
@@ -797,6 +827,14 @@ def tally(rep, case, impl_res, ans):
             rep.count('ext:' + case.get('ext', 'tsv' if case.get('tsv') else 'csv'))
         if case['op'] == 'tsv':
             rep.count('n_significant_figures:%s' % (case.get('nsf') or 'default'))
+        if case['op'] == 'simple' and case.get('blank'):
+            b = case['blank']
+            rep.count('simple:blank_lines_inserted')
+            rep.count('simple:blank_eol:%r' % b['eol'])
+            if b['trailing']:
+                rep.count('simple:blank_trailing')
+            if b['after']:
+                rep.count('simple:blank_between_rows_or_after_header')
         # mechanism-level tie, never an alarm: is the written file the text the model writes, character by character?
         if isinstance(impl_res.get('ok'), dict) and isinstance(ans.get('ok'), dict) and 'text' in ans['ok']:
             rep.count('file_text_equals_model' if impl_res['ok'].get('text') == ans['ok']['text']
@@ -1024,9 +1062,15 @@ def gen(tier, rng):
                              (rng.pick(['good', 'mua', 'a,b', 'x\ty', 'q"uote', '']) if rng.random() < .5 else
                               (lambda t: '' if _numeric_like(t) else t)(rand_text(rng, nonempty=False)))))])
         ext = rng.pick(['tsv', 'csv'])
+        blank = None
+        if rng.random() < .5:
+            blank = dict(eol=rng.pick(['\r\n', '\n', '\r']), trailing=rng.randrange(0, 3),
+                         after=[rng.randrange(0, 50) for _ in range(rng.randrange(0, 3))])
+            if not blank['trailing'] and not blank['after']:
+                blank['trailing'] = 1
         yield dict(p=PID, op='simple', field=rng.pick(['group', 'KSLabel', 'Amplitude', 'my field', 'a,b', 'q"x'] +
                                                       (['t\tab'] if ext == 'tsv' else [])),
-                   data=data, ext=ext, metadata=rng.random() < .5, stale=rng.random() < .3)
+                   data=data, ext=ext, metadata=rng.random() < .5, stale=rng.random() < .3, blank=blank)
     for _ in range(300 if q else 5000):
         keys = rng.sample(['dat_path', 'n_channels_dat', 'dtype', 'offset', 'sample_rate', 'hp_filtered', 'extra', '_x1',
                            'Fs', 'nChan', 'a', 'match', 'x_y_2'], rng.randrange(1, 6))
